@@ -186,3 +186,134 @@ def run_roll(case):
         junk = [JUNK, 1] if op == "mean" else JUNK
         tr["res"] = [r if j in seen else junk for j, r in enumerate(tr["res"])]
     return tr
+
+
+# ------------------------------------------------------------------------------------------ C10
+import math
+
+BETAS = {"0": (0, 1), "1/4": (1, 4), "1/2": (1, 2), "3/4": (3, 4)}
+
+
+def _times_obj(case):
+    """abstract integer times (units of the halflife = 1 s) -> real timestamps."""
+    unit = case.get("tunit", "ns")
+    base = case.get("tbase", "2024-01-01")
+    t0 = np.datetime64(base, "s")
+    arr = np.array([t0 + np.timedelta64(int(t), "s") for t in case["times"]], dtype="datetime64[s]").astype(f"datetime64[{unit}]")
+    tc = case.get("tcont", "np")
+    if tc == "index":
+        return pd.DatetimeIndex(arr)
+    if tc == "series":
+        return pd.Series(arr)
+    if tc == "tz":
+        return pd.DatetimeIndex(arr).tz_localize("UTC").tz_convert("US/Eastern")
+    return arr
+
+
+def run_ema(case):
+    """case: entry in ema|ema_grouped|gb, param in alpha|halflife|timed, beta key, keys, vals, emb, mask, times."""
+    from groupby_lib import GroupBy, ema, ema_grouped
+    emb = EMB[case["emb"]]
+    api.set_config(case)
+    bn, bd = BETAS[case["beta"]]
+    tr = base_trace(case, emb)
+    tr.update(op="ema", timed=int(case["param"] == "timed"), beta=[bn, bd], times=case.get("times") or list(range(len(case["keys"]))))
+    tr["cfg"].update(entry=case["entry"], param=case["param"], tunit=case.get("tunit"), tcont=case.get("tcont"), tbase=case.get("tbase"))
+    n = len(case["keys"])
+    kw = {}
+    if case["param"] == "alpha":
+        kw["alpha"] = 1 - bn / bd
+    elif case["param"] == "halflife":
+        kw["halflife"] = -math.log(2) / math.log(bn / bd)
+    else:
+        kw["halflife"] = case.get("hl", "1s")
+        kw["times"] = _times_obj(case)
+    values = _values_obj(case, emb)
+    mask = _mask_obj(case)
+    entry = case["entry"]
+    bygroup = case.get("layout") == "bygroup"
+    try:
+        if entry == "ema":
+            out = call(ema, values, **kw)
+        elif entry == "ema_grouped":
+            codes = np.array([-1 if i == NULL else i - 1 for i in case["keys"]], dtype=np.int64)
+            out = call(ema_grouped, codes, _ngroups(case), values, mask=mask, **kw)
+        else:
+            keyobj, kenc = _keys_obj(case)
+            gb = call(GroupBy, keyobj)
+            out = call(gb.ema, values, mask=mask, index_by_groups=bygroup, **kw)
+    except Exception as ex:
+        tr.update(out="raise", exc=type(ex).__name__, msg=str(ex)[:160], res=[])
+        return tr
+    tr["out"] = "ok"
+    if bygroup:
+        idx = out.index
+        a_sorted = _out_array(out)
+        pos = [int(t[-1]) for t in idx.tolist()]
+        labs = [kenc.dec(t[0]) for t in idx.tolist()]
+        order_ok = all((labs[j], pos[j]) <= (labs[j + 1], pos[j + 1]) for j in range(len(pos) - 1))
+        rows_ok = all(0 <= p < n and case["keys"][p] == l for p, l in zip(pos, labs))
+        want = sorted(p for p in range(n) if case["keys"][p] != NULL)
+        tr["layout_ok"] = int(order_ok and rows_ok and sorted(pos) == want)
+        a = np.full(n, np.nan)
+        for p, x in zip(pos, a_sorted):
+            if 0 <= p < n:
+                a[p] = x
+    else:
+        a = _out_array(out).astype(float)
+    tr["res"] = [to_rat(x, max_den=2 ** 22) for x in a.tolist()]
+    if entry == "ema":
+        # the ungrouped kernel is judged from the first valid observation on
+        first = next((j for j, v in enumerate(case["vals"]) if v != NULL), n)
+        tr["from"] = first + 1
+    return tr
+
+
+# ------------------------------------------------------------------------------------------ C15
+def run_select(case):
+    """case: kind head|tail|nth, n, keys (ids) or runs [[g, len], ...], idx (labels), ncols, kenc, vdtype."""
+    from groupby_lib import GroupBy
+    api.set_config(case)
+    rle = "runs" in case
+    if rle:
+        ids = []
+        for g, l in case["runs"]:
+            ids.extend([g] * l)
+    else:
+        ids = list(case["keys"])
+    n_rows = len(ids)
+    kenc = api.key_encoder(case.get("kenc", "f64"))
+    keyarr = kenc.enc(ids)
+    idx = case.get("idx") or list(range(n_rows))
+    vdt = case.get("vdtype", "float64")
+    ncols = case.get("ncols", 1)
+    index = pd.Index(idx)
+    cols = {f"c{j}": np.arange(n_rows, dtype=vdt) + (1000003 * j if vdt != "float32" else 0) for j in range(ncols)}
+    values = pd.Series(cols["c0"], index=index, name="c0") if ncols == 1 else pd.DataFrame(cols, index=index)
+    keys = pd.Series(keyarr, index=index) if case.get("kcont", "series") == "series" else keyarr
+    tr = {"kind": case["kind"], "n": case["n"], "cfg": {k: case.get(k) for k in ("kenc", "ncols", "vdtype", "T", "kcont")}}
+    if rle:
+        tr["runs"] = case["runs"]
+    else:
+        tr["keys"], tr["idx"] = ids, [int(x) for x in idx]
+    try:
+        gb = call(GroupBy, keys)
+        out = call(getattr(gb, case["kind"]), values, case["n"], keep_input_index=True)
+    except Exception as ex:
+        tr.update(out="raise", exc=type(ex).__name__, msg=str(ex)[:160], rows=[], ridx=[])
+        return tr
+    tr["out"] = "ok"
+    if isinstance(out, pd.DataFrame):
+        a = out.iloc[:, 0].to_numpy()
+        off = 0 if vdt == "float32" else 1000003
+        ok = all(np.array_equal(out.iloc[:, j].to_numpy() - off * j, a) for j in range(out.shape[1])) and out.shape[1] == ncols
+    else:
+        a = out.to_numpy()
+        ok = True
+    rows = [int(x) if float(x) == int(x) else JUNK for x in a.tolist()]
+    if not ok:
+        rows = [JUNK] * len(rows)      # columns disagree: values were modified
+    tr["rows"] = rows
+    if not rle:
+        tr["ridx"] = [int(x) for x in out.index.tolist()]
+    return tr
